@@ -209,6 +209,13 @@ def step (d : DSt) (line : String) : DSt × String :=
     | _, _, _, _ => (d, "bad-op")
   | ["reload"] => ({ d with s := if d.s.store.isEmpty then d.s else stepReload d.s }, "ok")
   | ["q", idx, ord, fr, lim, ft, tt, _via] =>
+    -- a negative Limit: `GetManyFromOrderPosition` computes a non-positive result size — nothing (the index is built all the same)
+    if (lim.toInt?.getD 0) < 0 then
+      (match slotOf idx with
+       | some sl =>
+         if d.s.store.isEmpty then (d, "err noswamp") else
+         ({ d with s := stepBuild d.cfg d.s { slot := sl, asc := ord == "asc", from_ := 0, limit := 0, fromT := none, toT := none } }, "r ")
+       | none => (d, "bad-op")) else
     match slotOf idx, fr.toInt?, lim.toNat?, optT ft, optT tt with
     | some sl, some fr, some lim, some ft, some tt =>
       if ord != "asc" && ord != "desc" then (d, "bad-op") else
